@@ -10,6 +10,7 @@ package bsonkit
 
 //@ func Inspect
 //@   tags C12
+//@   pure
 //@   requires spec.wf1(v)
 //@   ensures [C12] result0 == spec.class(v)
 //@   ensures [C12] result1 == spec.btype(v)
@@ -19,21 +20,25 @@ package bsonkit
 
 //@ func Compare
 //@   tags C12
+//@   pure
 //@   uses cmp wf
 //@   requires spec.wfVal(lv) && spec.wfVal(rv)
 //@   decreases 2*(spec.size(lv) + spec.size(rv)) + 1
 //@   ensures [C12] result == spec.cmp(lv, rv)
 //@ func compareNumbers
 //@   tags C12
+//@   pure
 //@   requires spec.class(lv) == 1 && spec.class(rv) == 1
 //@   ensures [C12 name=exact] result == spec.cmpNum(lv, rv)
 //@   ensures [C12 name=finite] imp(spec.numFinite(lv) && spec.numFinite(rv) && !spec.floatDecPair(lv, rv), result == spec.cmpNum(lv, rv))
 //@ func compareStrings
 //@   tags C12
+//@   pure
 //@   requires is(lv, VStr) && is(rv, VStr)
 //@   ensures [C12] result == spec.strcmp(spec.str(lv), spec.str(rv))
 //@ func compareDocuments
 //@   tags C12
+//@   pure
 //@   locals l r i res
 //@   uses cmp wf
 //@   requires spec.wfVal(lv) && spec.wfVal(rv) && is(lv, VDoc) && is(rv, VDoc)
@@ -43,6 +48,7 @@ package bsonkit
 //@   loop 0 invariant forall(j, 0, i, spec.cmpElem(l[j], r[j]) == 0)
 //@ func compareArrays
 //@   tags C12
+//@   pure
 //@   locals l r i res
 //@   uses cmp wf
 //@   requires spec.wfVal(lv) && spec.wfVal(rv) && is(lv, VArr) && is(rv, VArr)
@@ -52,43 +58,93 @@ package bsonkit
 //@   loop 0 invariant forall(j, 0, i, spec.cmp(l[j], r[j]) == 0)
 //@ func compareBinaries
 //@   tags C12
+//@   pure
 //@   requires is(lv, VBin) && is(rv, VBin)
 //@   ensures [C12] result == spec.cmpBin(spec.bin(lv), spec.bin(rv))
 //@ func compareObjectIDs
 //@   tags C12
+//@   pure
 //@   requires is(lv, VOid) && is(rv, VOid)
 //@   ensures [C12] result == spec.cmpOid(spec.oid(lv), spec.oid(rv))
 //@ func compareBooleans
 //@   tags C12
+//@   pure
 //@   requires is(lv, VBool) && is(rv, VBool)
 //@   ensures [C12] result == spec.cmpBool(spec.bool(lv), spec.bool(rv))
 //@ func compareDates
 //@   tags C12
+//@   pure
 //@   requires is(lv, VDate) && is(rv, VDate)
 //@   ensures [C12] result == spec.cmpI64(spec.date(lv), spec.date(rv))
 //@ func compareTimestamps
 //@   tags C12
+//@   pure
 //@   requires is(lv, VTs) && is(rv, VTs)
 //@   ensures [C12] result == spec.cmpTs(spec.ts(lv), spec.ts(rv))
 //@ func compareRegexes
 //@   tags C12
+//@   pure
 //@   requires is(lv, VRegex) && is(rv, VRegex)
 //@   ensures [C12] result == spec.cmpRegex(spec.regex(lv), spec.regex(rv))
 //@ func compareInt32s
 //@   tags C12
+//@   pure
 //@   ensures [C12] result == spec.cmpI32(l, r)
 //@ func compareInt64s
 //@   tags C12
+//@   pure
 //@   ensures [C12] result == spec.cmpI64(l, r)
 //@ func compareFloat64s
 //@   tags C12
+//@   pure
 //@   ensures [C12] result == spec.cmpF64(l, r)
 //@ func compareInt64ToFloat64
 //@   tags C12
+//@   pure
 //@   ensures [C12] result == spec.cmpQ(spec.q_ofI64(l), spec.q_ofF64(r))
 //@ func compareFloat64ToInt64
 //@   tags C12
+//@   pure
 //@   ensures [C12] result == spec.cmpQ(spec.q_ofF64(l), spec.q_ofI64(r))
+
+// ---------------------------------------------------------------------------
+// sort.go
+//
+// sortKey: an array is ranked by its smallest element (ascending) or its
+// largest element (descending) under the BSON order; everything else by itself.
+
+//@ func sortKey
+//@   tags C13
+//@   uses cmp wf order
+//@   pure
+//@   locals arr ok best item cmp
+//@   requires spec.wfVal(v)
+//@   ensures [C13 name=scalar] imp(!is(v, VArr) || len(spec.arr(v)) == 0, result == v)
+//@   ensures [C13 name=member] imp(is(v, VArr) && len(spec.arr(v)) > 0, exists(k, 0, len(spec.arr(v)), result == spec.arr(v)[k]))
+//@   ensures [C13 name=smallest] imp(is(v, VArr) && len(spec.arr(v)) > 0 && !reverse, forall(j, 0, len(spec.arr(v)), spec.cmp(spec.arr(v)[j], result) >= 0))
+//@   ensures [C13 name=largest] imp(is(v, VArr) && len(spec.arr(v)) > 0 && reverse, forall(j, 0, len(spec.arr(v)), spec.cmp(spec.arr(v)[j], result) <= 0))
+//@   ensures [C13 name=wf] spec.wfVal(result)
+//@   loop 0 invariant exists(k, 0, rangeindex + 2, best == arr[k])
+//@   loop 0 invariant forall(j, 0, rangeindex + 2, imp(!reverse, spec.cmp(arr[j], best) >= 0) && imp(reverse, spec.cmp(arr[j], best) <= 0))
+
+// Order: the first column whose sort keys differ decides, with the sign flipped
+// for a descending column; no such column means equal (identity aside).
+
+//@ define colcmp(l, r, col) = spec.cmp(pure.sortKey(spec.getPath(*l, col.Path), col.Reverse), pure.sortKey(spec.getPath(*r, col.Path), col.Reverse))
+
+//@ func Order
+//@   tags C13
+//@   uses wf order access
+//@   locals column a b res al ar
+//@   requires l != nil && r != nil && spec.wfVal(spec.VDoc(*l)) && spec.wfVal(spec.VDoc(*r))
+//@   modifies nothing
+//@   ensures [C13 name=range] -1 <= result && result <= 1
+//@   ensures [C13 name=equal] imp(!identity && result == 0, forall(c, 0, len(columns), colcmp(l, r, columns[c]) == 0))
+//@   ensures [C13 name=first-difference] imp(!identity && result != 0, exists(c, 0, len(columns), spec.witness(c) && forall(j, 0, c, colcmp(l, r, columns[j]) == 0) &&
+//@     colcmp(l, r, columns[c]) != 0 && result == ite(columns[c].Reverse, 0 - colcmp(l, r, columns[c]), colcmp(l, r, columns[c]))))
+//@   ensures [C13 name=identity-only-ties] imp(identity && forall(c, 0, len(columns), colcmp(l, r, columns[c]) == 0), (result == 0) == (l == r))
+//@   loop 0 invariant forall(j, 0, rangeindex + 1, colcmp(l, r, columns[j]) == 0)
+//@   loop 0 invariant spec.witness(rangeindex + 1)
 
 // ---------------------------------------------------------------------------
 // set.go
@@ -147,12 +203,71 @@ package bsonkit
 //@   ensures [C03,C15] len(result.List) == len(s.List) && forall(i, 0, len(s.List), result.List[i] == s.List[i])
 
 // ---------------------------------------------------------------------------
+// access.go: the path-access functions against their abstract view
+// (specs/access.smt2). Trusted: the recursive, string-splitting bodies are not
+// verified; the callers' contracts are stated over getPath / putPath.
+
+//@ func Get
+//@   trusted
+//@   uses access
+//@   modifies nothing
+//@   ensures result == spec.getPath(*doc, path)
+//@ func Put
+//@   trusted
+//@   uses access
+//@   modifies *doc
+//@   ensures (err == nil) == (value != spec.VMissing && spec.putOK(old(*doc), path, value, prepend))
+//@   ensures imp(err == nil, *doc == spec.putPath(old(*doc), path, value, prepend) && result0 == old(spec.getPath(*doc, path)))
+//@ func Unset
+//@   trusted
+//@   uses access
+//@   modifies *doc
+//@   ensures result == old(spec.getPath(*doc, path))
+//@   ensures *doc == spec.unsetPath(old(*doc), path)
+
+// ---------------------------------------------------------------------------
 // math.go
 
 //@ func safeFloatToDec
 //@   tags C12 C11
+//@   pure
 //@   ensures [C12] result == ite(spec.f64_kind(f) == 0, spec.dec_shortest(f), spec.dec_zero)
 //@ func safeD128ToDec
 //@   trusted
 //@   pure
 //@   ensures result == ite(spec.d128_kind(d) == 0, spec.dec_ofD128(d), spec.dec_zero)
+//@ func decToD128
+//@   trusted
+//@   pure
+//@   requires [C11 name=representable] spec.dec_fits(d)
+//@   ensures result == spec.d128_ofDec(d)
+//@ func safeDecMod
+//@   tags C11
+//@   pure
+//@   ensures [C11] result == ite(spec.dec_isZero(div), spec.dec_zero, spec.dec_mod(num, div))
+
+// Add / Mul / Mod against MongoDB's type-promotion table (specs/arith.smt2).
+// value: everything except integer overflow and non-finite operands of a
+// decimal arm; overflow: int32 results are promoted to int64, an int64 overflow
+// does not yield a wrapped number; nonfinite: NaN / Inf are not turned into
+// finite decimals.
+
+//@ func Add
+//@   tags C11
+//@   pure
+//@   uses arith
+//@   ensures [C11 name=value] imp(!spec.addOverflows(num, inc) && imp(spec.decArm(num, inc), spec.decFinite(num, inc)), result == spec.addNum(num, inc))
+//@   ensures [C11 name=overflow] imp(spec.addOverflows(num, inc), result == spec.addNum(num, inc))
+//@   ensures [C11 name=nonfinite] imp(spec.decArm(num, inc) && !spec.decFinite(num, inc), is(result, VDec) && spec.d128_kind(spec.dec(result)) != 0)
+//@ func Mul
+//@   tags C11
+//@   pure
+//@   uses arith
+//@   ensures [C11 name=value] imp(!spec.mulOverflows(num, mul) && imp(spec.decArm(num, mul), spec.decFinite(num, mul)), result == spec.mulNum(num, mul))
+//@   ensures [C11 name=overflow] imp(spec.mulOverflows(num, mul), result == spec.mulNum(num, mul))
+//@   ensures [C11 name=nonfinite] imp(spec.decArm(num, mul) && !spec.decFinite(num, mul), is(result, VDec) && spec.d128_kind(spec.dec(result)) != 0)
+//@ func Mod
+//@   tags C11
+//@   pure
+//@   uses arith
+//@   ensures [C11 name=value] imp(spec.modDecided(num, div) && imp(spec.decArm(num, div) && !spec.zeroDivisor(div), spec.decFinite(num, div)), result == spec.modNum(num, div))
